@@ -8,7 +8,8 @@ package main
 //     C19-pathset-union-subtract-empty-operand-aliases-result returned the operand itself).  Deterministic: every
 //     subset of a trio of paths as the non-empty operand x {s.Union(empty), empty.Union(s), s.Subtract(empty),
 //     empty.Subtract(s)} x {Add, Remove} of every path of the trio on the result / on the operand.
-//   - PathSet histories over null keys and keys of compound type only (C19.pathset_rules_lawful_wide).
+//   - PathSet histories over null keys, keys of compound type and keys that hold sets only
+//     (C19.pathset_rules_lawful_wide, pathset_rules_lawful_with_sets).
 
 import (
 	"github.com/zclconf/go-cty/cty"
@@ -69,6 +70,13 @@ func runC19D19b(ctx *Ctx) {
 		cty.IndexPath(cty.ListValEmpty(cty.String)), cty.IndexPath(cty.ListValEmpty(cty.Number)),
 		cty.IndexPath(one), cty.IndexPath(cty.StringVal("k")), cty.GetAttrPath("a").Index(cty.NullVal(cty.String)),
 		cty.IndexPath(cty.ListVal([]cty.Value{cty.StringVal("a")}).Mark("m1")),
+		// keys that hold sets (C19.pathset_rules_lawful_with_sets): the same set built in either order is one key
+		cty.IndexPath(cty.SetVal([]cty.Value{cty.StringVal("a"), cty.StringVal("b")})),
+		cty.IndexPath(cty.SetVal([]cty.Value{cty.StringVal("b"), cty.StringVal("a")})),
+		cty.IndexPath(cty.SetVal([]cty.Value{cty.StringVal("a")})), cty.IndexPath(cty.SetValEmpty(cty.String)),
+		cty.IndexPath(cty.SetVal([]cty.Value{one, cty.NumberIntVal(2)})), cty.IndexPath(cty.SetVal([]cty.Value{onePt, cty.NumberIntVal(2)})),
+		cty.IndexPath(cty.ListVal([]cty.Value{cty.SetVal([]cty.Value{cty.StringVal("a")}), cty.SetValEmpty(cty.String)})),
+		cty.IndexPath(cty.SetVal([]cty.Value{cty.StringVal("a").Mark("m2"), cty.StringVal("b")})),
 	}
 	n := ctx.N(250, 6000)
 	for i := 0; i < n; i++ {
